@@ -35,7 +35,7 @@ def akai_subject(variant):
 def roland_subject():
     samples = {0: {"name": "KICK", "chain": [3, 2], "points": [2, 2, 5000, 2, 100], "mode": 2, "seq": 1},
                1: {"name": "TOM", "chain": [4], "points": [0, 0, 4607, 0, 100], "mode": 5, "seq": 2},
-               2: {"name": "SNARE", "chain": [5], "points": [1, 1, 900, 1, 1200], "mode": 1, "seq": 3}}
+               2: {"name": "TON", "chain": [5], "points": [1, 1, 900, 1, 1200], "mode": 1, "seq": 3}}
     model = {"volumes": [{"name": "VOL", "perfs": [0]}], "performances": {0: {"name": "PERF", "patches": [0]}},
              "patches": {0: {"name": "PATCH", "partials": [0]}}, "partials": {0: {"name": "PART", "samples": [0, 1, 2]}},
              "samples": samples}
@@ -95,7 +95,7 @@ def akai_name_of(entry_bytes):
         return None
 
 
-def judge(key, e, damaged_img):
+def judge(key, e, damaged_img, relaxed=False):
     img, items, path, base = subject(key)
     st, obs = guarded(lambda: observe(damaged_img, path), 60.0)
     if st == "hang":
@@ -110,7 +110,7 @@ def judge(key, e, damaged_img):
     missing = []
     have = list(obs["rows"])
     shift = 1 if key == "roland" else 0      # a Roland performance lists its program first
-    for i in others:
+    for i in ([] if relaxed else others):
         row = want_rows[i + shift]
         if row in have:
             have.remove(row)
@@ -119,6 +119,26 @@ def judge(key, e, damaged_img):
     if missing:
         return False, "sibling-not-listed", {"missing_rows": missing[:3], "observed_rows": obs["rows"][:6]}
     partner = pair_partner(items, e)
+    if relaxed:
+        # the damaged name now equals a sibling's name or pairs with it: the names shown may get a count / a stereo
+        # stem, but every other sample's audio must still be there (complete, or a consistent prefix inside a merged file)
+        from mcv.ref import riff as _r
+        for i in others:
+            p = items[i]["pcm"]
+            if p is None:
+                continue
+            found = False
+            for fp, b in obs["files"].items():
+                w = _r.validate(b)
+                if w.errors:
+                    continue
+                for c in _r.split_channels(w.data, w.fmt["channels"]):
+                    k = min(len(c), len(p))
+                    if k > 0 and c[:k] == p[:k] and (w.fmt["channels"] == 2 or len(c) >= len(p)):
+                        found = True
+            if not found:
+                return False, "sibling-audio-lost(name collision)", {"lost": items[i]["name"], "files": sorted(obs["files"])[:6]}
+        return True, "collision-ok", None
     pcms = {i: items[i]["pcm"] for i in others if items[i]["pcm"] is not None and i != partner}
     occ, errs = tree.channel_map(obs["files"], pcms)
     lost = [items[i]["name"] for i, o in occ.items() if not o]
@@ -200,7 +220,8 @@ class Check(CheckBase):
             "menu. Oracle vs the undamaged run: every other item still listed with the same printed row, its position-coded "
             "PCM complete in some exported channel (the L/R partner of a damaged item: complete when mono, a consistent prefix "
             "when merged), ls and export do not abort or hang. non-trivial = damage that changes the listing")
-    assumptions = ["name damage that reproduces a sibling's name or creates a stereo partner is skipped (C05/C06/C10)"]
+    assumptions = ["name damage that reproduces a sibling's name or creates a stereo partner: only the audio of the other "
+                   "items is required (their shown names may legitimately get a count or merge into a stereo stem)"]
 
     def shards(self):
         cases = []
@@ -216,7 +237,19 @@ class Check(CheckBase):
                         for p1, p2 in itertools.combinations(range(fo, fo + fw), 2):
                             for v1, v2 in itertools.product(MENU, repeat=2):
                                 cases.append({"subject": key, "entry": e, "bytes": [[p1, v1], [p2, v2]]})
+        # targeted: the single name byte that turns an entry's name into a sibling's name (PAD-L <-> PAD-R, TOM <-> TON)
+        for key in ("akai0", "akai1", "akai2"):
+            img, items, path, base = subject(key)
+            for e, it in enumerate(items):
+                for o, other in enumerate(items):
+                    if o == e or len(other["name"]) != len(it["name"]):
+                        continue
+                    diff = [k for k in range(len(it["name"])) if it["name"][k] != other["name"][k]]
+                    if len(diff) == 1:
+                        cases.append({"subject": key, "entry": e, "bytes": [[diff[0], A._CH[other["name"][diff[0]]]]]})
         rcases = []
+        rcases.append({"subject": "roland", "entry": 1, "rec": 0, "bytes": [[2, ord("N")]]})
+        rcases.append({"subject": "roland", "entry": 2, "rec": 0, "bytes": [[2, ord("M")]]})
         for e in range(3):
             for rec, ln in ((0, 32), (1, 48)):
                 for pos in range(ln):
@@ -240,10 +273,8 @@ class Check(CheckBase):
             if old == new:
                 rep.notes["identity (value equals the stored byte)"] += 1
                 continue
-            if skip_collision(key, case, new):
-                rep.notes["skipped: name damage that collides with a sibling"] += 1
-                continue
-            ok, klass, detail = judge(key, case["entry"], dimg)
+            relaxed = skip_collision(key, case, new)
+            ok, klass, detail = judge(key, case["entry"], dimg, relaxed)
             site = f"{key}:entry{case['entry']}" + (f":rec{case['rec']}" if "rec" in case else "")
             rep.case(case, ok=ok, klass=klass, nontrivial=klass != "entry-same-listing", detail=detail,
                      sig=f"{key}:{klass}:byte{case['bytes'][0][0]}" + (f":rec{case['rec']}" if "rec" in case else ""))
